@@ -2,6 +2,7 @@ package main
 
 import (
 	"fmt"
+	"go/types"
 	"golang.org/x/tools/go/ssa"
 	"os"
 	"time"
@@ -345,5 +346,39 @@ func init() {
 		ruleValidDictCap(c, r, "")
 		ruleSameSource(c, r, "")
 		ruleLoopAdvanceExact(c, r, "")
+	}
+}
+
+func init() {
+	debugCmds["arrslices"] = func(c *Ctx) {
+		for _, fn := range c.modFuncs {
+			for _, b := range fn.Blocks {
+				for _, ins := range b.Instrs {
+					sl, ok := ins.(*ssa.Slice)
+					if !ok {
+						continue
+					}
+					pt, isP := sl.X.Type().Underlying().(*types.Pointer)
+					if !isP {
+						continue
+					}
+					at, isA := pt.Elem().Underlying().(*types.Array)
+					if !isA {
+						continue
+					}
+					nonConst := false
+					for _, v := range []ssa.Value{sl.Low, sl.High, sl.Max} {
+						if v != nil {
+							if _, isK := v.(*ssa.Const); !isK {
+								nonConst = true
+							}
+						}
+					}
+					if nonConst {
+						fmt.Printf("%s %s [%d] %s\n", c.InstrPos(ins), FnName(fn), at.Len(), ins.String())
+					}
+				}
+			}
+		}
 	}
 }
